@@ -230,11 +230,28 @@ class Scenario:
 
     # ---- observation ------------------------------------------------------
     def read_store(self):
+        """the announcements the client holds: its table, and - what survives a restart - its cache file; they must agree"""
         out = []
         for (svc, key_s), (ann, key_s2, when) in self.client._inbound_announcements.items():
             out.append({"svc": svc, "key": self.by_key_s.get(key_s, "unknown") if key_s == key_s2 else "mismatch",
                         "seq": abs_seq(ann), "body": str(ann.get("nickname", "?"))})
-        return sorted(out, key=lambda e: (e["svc"], e["key"]))
+        out = sorted(out, key=lambda e: (e["svc"], e["key"]))
+        cache = []
+        cp = os.path.join(self.dir, "cache.yaml")
+        if os.path.exists(cp):
+            from allmydata.util import yamlutil
+            with open(cp) as f:
+                for sp in (yamlutil.safe_load(f) or []):
+                    ann = sp["ann"]
+                    cache.append({"svc": str(ann["service-name"]), "key": self.by_key_s.get(sp["key_s"].encode("ascii"), "unknown"),
+                                  "seq": abs_seq(ann), "body": str(ann.get("nickname", "?"))})
+        cache = sorted(cache, key=lambda e: (e["svc"], e["key"]))
+        self.last_cache = cache
+        if self.restarted:
+            return cache          # after a restart the cache file is the store the client started from
+        return out
+    restarted = False
+    last_cache = []
 
     def run(self):
         rng = self.rng
@@ -245,6 +262,21 @@ class Scenario:
                 self.deliveries = []
                 self._subscribe(svc)
                 self.events.append({"ev": "Subscribe", "svc": svc, "out": [{k: v for k, v in d.items() if k != "cb"} for d in self.deliveries]})
+                continue
+            if rng.random() < 0.07 and self.events:
+                # the node restarts while the introducer is unreachable: a new client object on the same cache file, the same
+                # subscriptions, and what IntroducerClient does when its connection attempt fails (connect_failed): the cached
+                # announcements are used.  They are the stored announcements from now on.
+                self.client = IntroducerClient(StubTub(), "pb://fake@tcp:localhost:1/introducer", u"nick", "ver", "oldest",
+                                               lambda: (1, "nonce"), FilePath(os.path.join(self.dir, "cache.yaml")))
+                subs, self.subs = list(self.subs), []
+                self.deliveries = []
+                for svc in subs:
+                    self._subscribe(svc)
+                self.client._load_announcements()
+                self.restarted = True
+                self.events.append({"ev": "Restart", "out": [{k: v for k, v in d.items() if k != "cb"} for d in self.deliveries],
+                                    "store": self.read_store()})
                 continue
             if rng.random() < 0.06:
                 # a second, late subscriber of an already subscribed service: told the stored entries, then muted
